@@ -113,7 +113,7 @@ for k in (1, 2, 4):
     ss, ok = build(1/30/k, p['method'])
     rejected = [0]
     if p.get('reject'):
-        # injected fault: the first attempt of a few steps in the middle of the run is made to fail (iteration limit 0 for
+        # injected fault: the first attempt of a few steps in the middle of the run is made to fail (iteration limit 1 for
         # that one call), so that the integrator has to reject the step, shrink it and try again from the SAME state
         nst = p['tf'] * 30 * k
         at = set(max(2, int(fr * nst)) for fr in p['reject'])
@@ -123,7 +123,7 @@ for k in (1, 2, 4):
             calls[0] += 1
             if calls[0] in at:
                 mi = ss.TDS.config.max_iter
-                ss.TDS.config.max_iter = 0
+                ss.TDS.config.max_iter = 1       # two Newton iterations: the right-hand sides have been re-evaluated at an iterate
                 try:
                     okk = orig()
                 finally:
@@ -147,7 +147,9 @@ for k in (1, 2, 4):
     errs.append({'h': 1/30/k, 'done': bool(done), 'err_delta': float(e_d), 'err_omega': float(e_w), 'n': len(ts),
                  'delta0_andes': float(xs[0, d_addr]), 'rejected': rejected[0]})
 swing = max(abs(v[0] - delta0) for v in ref.values())
-out = {'errs': errs, 'delta0_ref': delta0, 'E': Emag, 'Pm': float(Pm), 'swing': float(swing),
+# natural frequency of the swing (largest over the network states of the schedule), from the physical data
+wn = max(math.sqrt(w0 * Emag * Vinf / (xd1s + xline(on)) * abs(math.cos(delta0)) / Ms) for on in (True, False))
+out = {'errs': errs, 'delta0_ref': delta0, 'E': Emag, 'Pm': float(Pm), 'swing': float(swing), 'wn': float(wn),
        'vf0_andes': float(ss.GENCLS.vf0.v[0]), 'tm0_andes': float(ss.GENCLS.tm0.v[0])}
 print(json.dumps(out))
 '''
@@ -322,7 +324,11 @@ def run(ctx):
                                 'trajectory does not converge to the reference at the method\'s order' % (spec['method'], e1, e4, ratio, need), spec)
             # sanity bound only (phase error of a ~1.5 Hz swing over 2 s at h = 1/30 is about 0.15 rad plus O(h) at each
             # switching instant); the claim that is tested sharply is the convergence under step reduction above
-            bound = (0.5 if order == 2 else 1.5) * max(r['swing'], 0.05)
+            # the trapezoidal rule reproduces an oscillation of frequency wn with the relative phase error (h wn)^2 / 12
+            # per radian: over T seconds an error of up to swing * wn^3 h^2 T / 12 (at most 2 * swing) is the
+            # discretisation error of the method, not a defect (an inertia altered downwards gives swings above 3 Hz)
+            phase = r.get('wn', 0.0) ** 3 * (1 / 30) ** 2 * spec['tf'] / 12
+            bound = (max(0.5, min(2.0, 3.0 * phase)) if order == 2 else 1.5) * max(r['swing'], 0.05)
             if e1 > bound:
                 ctx.oracle_fail('smib-error-at-default-step', '%s: error in delta %.3g rad at the default step exceeds %.3g (swing %.3g rad)'
                                 % (spec['method'], e1, bound, r['swing']), spec)
